@@ -35,71 +35,92 @@ func c06Scenarios(tier string) []Spec {
 			if len(bad) == 0 && kind != "sig-removed" {
 				continue
 			}
-			name := fmt.Sprintf("C06/join3/bad%v/%s", bad, kind)
-			specs = append(specs, Spec{HBCache: true, RaceBound: 2, Shards: 1, Sc: sched.Scenario{Name: name, Make: func() *sched.Instance {
-				st := NewStore()
-				a := world.NewLog(st, 0, nil)
-				b := world.NewLog(st, 1, nil)
-				mustAppend(a, "a1")
-				mustAppend(b, "b1")
-				mustAppend(b, "b2")
-				mustAppend(b, "b3")
-				es := entry.NewOrderedMap()
-				var heads []iface.IPFSLogEntry
-				isBad := map[int]bool{}
-				for _, i := range bad {
-					isBad[i] = true
+			for _, then := range []bool{false, true} {
+				then := then
+				if then && (len(bad) == 0 || len(bad) == 3 || kind != "sig-removed") {
+					continue
 				}
-				vals := b.Values().Slice()
-				for i, e := range vals {
-					c := e.Copy()
-					c.SetHash(e.GetHash())
-					if isBad[i] {
-						if kind == "sig-removed" {
-							c.SetSig(nil)
+				name := fmt.Sprintf("C06/join3/bad%v/%s", bad, kind)
+				if then {
+					// the caller goes on writing right after the refusal: whatever the merge started must be over by then
+					name += ";append"
+				}
+				specs = append(specs, Spec{HBCache: true, RaceBound: 2, Shards: 1, Sc: sched.Scenario{Name: name, Make: func() *sched.Instance {
+					st := NewStore()
+					a := world.NewLog(st, 0, nil)
+					b := world.NewLog(st, 1, nil)
+					mustAppend(a, "a1")
+					mustAppend(b, "b1")
+					mustAppend(b, "b2")
+					mustAppend(b, "b3")
+					es := entry.NewOrderedMap()
+					var heads []iface.IPFSLogEntry
+					isBad := map[int]bool{}
+					for _, i := range bad {
+						isBad[i] = true
+					}
+					vals := b.Values().Slice()
+					for i, e := range vals {
+						c := e.Copy()
+						c.SetHash(e.GetHash())
+						if isBad[i] {
+							if kind == "sig-removed" {
+								c.SetSig(nil)
+							} else {
+								c.SetPayload(append(append([]byte{}, e.GetPayload()...), '!'))
+							}
+						}
+						es.Set(c.GetHash().String(), c)
+						if i == len(vals)-1 {
+							heads = []iface.IPFSLogEntry{c}
+						}
+					}
+					src, err := ipfslog.NewLog(st, world.IDs[1], &ipfslog.LogOptions{ID: "X", Entries: es, Heads: heads})
+					if err != nil {
+						panic(err)
+					}
+					before := setOf(a)
+					beforeHeads := strings.Join(sortedPayloads(a.Heads().Slice()), ",")
+					var jerr, aerr error
+					returned := false
+					body := func() {
+						_, jerr = a.Join(src, -1)
+						if then {
+							_, aerr = a.Append(world.Ctx, []byte("x1"), nil)
+							before = union(before, "x1")
+							beforeHeads = "x1"
+						}
+						returned = true
+					}
+					return &sched.Instance{Bodies: []func(){body}, Check: func(*zvsync.Result) (string, []sched.Finding) {
+						var fs []sched.Finding
+						if !returned {
+							return "no-return", []sched.Finding{{Key: "join-did-not-return", What: "Join did not return"}}
+						}
+						after := setOf(a)
+						if len(bad) > 0 {
+							if jerr == nil {
+								fs = append(fs, sched.Finding{Key: "bad-entry-merged:" + kind, What: fmt.Sprintf("a merge with bad entries at %v succeeded; destination now {%s}", bad, after)})
+							} else if after != before || strings.Join(sortedPayloads(a.Heads().Slice()), ",") != beforeHeads {
+								fs = append(fs, sched.Finding{Key: "failed-merge-changed-log", What: fmt.Sprintf("the merge failed (%v) but the destination went from {%s} to {%s}", jerr, before, after)})
+							}
 						} else {
-							c.SetPayload(append(append([]byte{}, e.GetPayload()...), '!'))
+							if jerr != nil {
+								fs = append(fs, sched.Finding{Key: "valid-merge-rejected", What: "a merge of valid entries failed: " + jerr.Error()})
+							} else if after != union(before, "b1,b2,b3") {
+								fs = append(fs, sched.Finding{Key: "merge-not-union", What: "destination is {" + after + "}"})
+							}
 						}
-					}
-					es.Set(c.GetHash().String(), c)
-					if i == len(vals)-1 {
-						heads = []iface.IPFSLogEntry{c}
-					}
-				}
-				src, err := ipfslog.NewLog(st, world.IDs[1], &ipfslog.LogOptions{ID: "X", Entries: es, Heads: heads})
-				if err != nil {
-					panic(err)
-				}
-				before := setOf(a)
-				beforeHeads := strings.Join(sortedPayloads(a.Heads().Slice()), ",")
-				var jerr error
-				returned := false
-				body := func() { _, jerr = a.Join(src, -1); returned = true }
-				return &sched.Instance{Bodies: []func(){body}, Check: func(*zvsync.Result) (string, []sched.Finding) {
-					var fs []sched.Finding
-					if !returned {
-						return "no-return", []sched.Finding{{Key: "join-did-not-return", What: "Join did not return"}}
-					}
-					after := setOf(a)
-					if len(bad) > 0 {
-						if jerr == nil {
-							fs = append(fs, sched.Finding{Key: "bad-entry-merged:" + kind, What: fmt.Sprintf("a merge with bad entries at %v succeeded; destination now {%s}", bad, after)})
-						} else if after != before || strings.Join(sortedPayloads(a.Heads().Slice()), ",") != beforeHeads {
-							fs = append(fs, sched.Finding{Key: "failed-merge-changed-log", What: fmt.Sprintf("the merge failed (%v) but the destination went from {%s} to {%s}", jerr, before, after)})
+						if aerr != nil {
+							fs = append(fs, sched.Finding{Key: "append-after-refused-merge-failed", What: aerr.Error()})
 						}
-					} else {
-						if jerr != nil {
-							fs = append(fs, sched.Finding{Key: "valid-merge-rejected", What: "a merge of valid entries failed: " + jerr.Error()})
-						} else if after != union(before, "b1,b2,b3") {
-							fs = append(fs, sched.Finding{Key: "merge-not-union", What: "destination is {" + after + "}"})
+						if m := structural(a); m != "" {
+							fs = append(fs, sched.Finding{Key: "final:" + strings.Split(m, ":")[0], What: m})
 						}
-					}
-					if m := structural(a); m != "" {
-						fs = append(fs, sched.Finding{Key: "final:" + strings.Split(m, ":")[0], What: m})
-					}
-					return fmt.Sprintf("err=%v set={%s}", jerr != nil, after), fs
-				}}
-			}}})
+						return fmt.Sprintf("err=%v set={%s}", jerr != nil, after), fs
+					}}
+				}}})
+			}
 		}
 	}
 	return specs
